@@ -36,6 +36,42 @@ func psReachVal(fn *ssa.Function, starts []*ssa.BasicBlock, cut func(from *ssa.B
 
 var psHelperDepth int
 
+// mapAtomTokens: atoms of the caller's valuation that mention argument i (as a whole token: f(assert(p3,T)#0)) are
+// carried into the helper's vocabulary with the argument replaced by the helper's parameter name.
+func mapAtomTokens(hval, val map[string]int64, i int, da string) {
+	if da == "" {
+		return
+	}
+	for k, v := range val {
+		if k == da || strings.HasPrefix(k, da+".") {
+			continue
+		}
+		if nk, ok := substToken(k, da, "p"+strconv.Itoa(i)); ok {
+			hval[nk] = v
+		}
+	}
+}
+
+// substToken replaces every whole-token occurrence of from in s; ok when at least one was replaced.
+func substToken(s, from, to string) (string, bool) {
+	isWord := func(c byte) bool {
+		return c == '_' || c >= '0' && c <= '9' || c >= 'a' && c <= 'z' || c >= 'A' && c <= 'Z'
+	}
+	var sb strings.Builder
+	n := 0
+	for i := 0; i < len(s); {
+		if strings.HasPrefix(s[i:], from) && (i == 0 || !isWord(s[i-1]) && s[i-1] != '.') && (i+len(from) == len(s) || !isWord(s[i+len(from)])) {
+			sb.WriteString(to)
+			i += len(from)
+			n++
+			continue
+		}
+		sb.WriteByte(s[i])
+		i++
+	}
+	return sb.String(), n > 0
+}
+
 // evalHelperBool evaluates a same-package boolean helper under a valuation of its parameters: known only when every
 // feasible return yields the same boolean.
 func evalHelperBool(h *ssa.Function, hval map[string]int64) (res, known bool) {
@@ -197,6 +233,50 @@ func psReachValV(fn *ssa.Function, starts []*ssa.BasicBlock, cut func(from *ssa.
 			if r, ok := val[desc(v)]; ok {
 				return r, true
 			}
+			// the integer result of a same-package helper (incl. an instantiated generic one), when the helper
+			// determines a single constant under the valuation carried onto its parameters
+			var call *ssa.Call
+			hidx := 0
+			switch x := v.(type) {
+			case *ssa.Call:
+				call = x
+			case *ssa.Extract:
+				call, _ = x.Tuple.(*ssa.Call)
+				hidx = x.Index
+			}
+			if call != nil && psHelperDepth <= 2 {
+				if bt, isB := v.Type().Underlying().(*types.Basic); isB && bt.Info()&types.IsInteger != 0 {
+					if h := samePkgHelper(fn, &call.Call); h != nil && h != fn {
+						hval := map[string]int64{}
+						for k, x := range val {
+							if !paramTokRe.MatchString(k) {
+								hval[k] = x
+							}
+							if pre := "@" + h.Name() + ":"; strings.HasPrefix(k, pre) {
+								hval[k[len(pre):]] = x
+							}
+						}
+						for i, a := range call.Call.Args {
+							if x, ok := evalInt(a, d+1); ok {
+								hval["p"+strconv.Itoa(i)] = x
+							}
+							mapAtomTokens(hval, val, i, desc(a))
+						}
+						if len(hval) > 0 {
+							psHelperDepth++
+							saved := lastPsEdges
+							rs, ok := constResults(h, hidx, hval, 1)
+							lastPsEdges = saved
+							psHelperDepth--
+							if ok && len(rs) == 1 {
+								for k := range rs {
+									return k, true
+								}
+							}
+						}
+					}
+				}
+			}
 		}
 		return 0, false
 	}
@@ -281,6 +361,7 @@ func psReachValV(fn *ssa.Function, starts []*ssa.BasicBlock, cut func(from *ssa.
 								if v, ok := val[desc(a)]; ok {
 									hval["p"+strconv.Itoa(i)] = v
 								}
+								mapAtomTokens(hval, val, i, desc(a))
 							}
 							if len(hval) > 0 {
 								if isNil, known := evalHelperNil(h, idx, hval); known {
@@ -307,6 +388,7 @@ func psReachValV(fn *ssa.Function, starts []*ssa.BasicBlock, cut func(from *ssa.
 									hval["p"+strconv.Itoa(i)+k[len(da):]] = v
 								}
 							}
+							mapAtomTokens(hval, val, i, da)
 						}
 						if len(hval) > 0 {
 							return evalHelperBoolIdx(h, x.Index, hval)
@@ -342,6 +424,7 @@ func psReachValV(fn *ssa.Function, starts []*ssa.BasicBlock, cut func(from *ssa.
 						hval["p"+strconv.Itoa(i)+k[len(da):]] = v
 					}
 				}
+				mapAtomTokens(hval, val, i, da)
 			}
 			if len(hval) == 0 {
 				return false, false
